@@ -20,7 +20,7 @@ type gcsCase struct {
 	Forms bool `json:"forms,omitempty"`
 }
 
-var c02Names = []string{"a", "a/b", "a.b/c.d", "a b", "ü", "a%2Fb", "x?y#z", ".hidden", "d/e/f.txt"}
+var c02Names = []string{"a", "a/b", "a.b/c.d", "a b", "ü", "a%2Fb", "x?y#z", ".hidden", "d/e/f.txt", "log..1/part..2", "a..b"}
 
 func c02Tag(o *GOp) string {
 	t := o.Kind
@@ -324,6 +324,7 @@ func runC02(c *fw.Ctx) {
 	alpha := []GOp{
 		P("media", "b1", "a", "A1"), P("multipart", "b1", "a", "A2-longer"), P("resumable", "b1", "a", ""),
 		P("media", "b1", "a.b", "AB"), P("multipart", "b1", "ab", "ab"), P("resumable", "b2", "a", "B2A"),
+		P("media", "b1", "a..b", "dotted twin of ab and a.b"),
 		{Kind: "Upload", Proto: "multipart", Bucket: "b1", Name: "a", Data: []byte("bad"), Meta: gcs.ObjMeta{ContentType: "t/x", Md5Hash: gcs.MD5b64([]byte("other"))}},
 		{Kind: "Delete", Bucket: "b1", Name: "a"}, {Kind: "Delete", Bucket: "b1", Name: "a.b"}, {Kind: "Delete", Bucket: "b2", Name: "a"},
 		{Kind: "Delete", Bucket: "b1", Name: "nonexistent"},
